@@ -139,7 +139,9 @@ Proof.
     set (sc := begin_run fr i (clear_sources i sa)) in *.
     destruct (eval p R false (Some i, true) e sc) as [se v] eqn:Eev.
     assert (Cc : ctx_ok (i :: stk) (Some i, true)) by (unfold ctx_ok; cbn; eauto).
-    destruct (eval_spec p i R HR e (Some i, true) sc (i :: stk) i se v Hok (le_n i) Ic Cc L1c Eev)
+    assert (Hdp : forall x, occurs x e -> CtxDep p (Some i, true) x).
+    { intros x Hx w Hw. cbn in Hw. inversion Hw; subst w. apply dep_one. unfold dep1. rewrite Hd. exact Hx. }
+    destruct (eval_spec p i R HR e (Some i, true) sc (i :: stk) i se v Hok Hdp (le_n i) Ic Cc L1c Eev)
       as (Ie & L1e & Pe & Ge). cbn [fst] in Pe. unfold TopOK in L1e. cbn [fst] in L1e.
     destruct (pr_above2 _ _ _ _ _ _ Pe i (le_n i)) as (Hcae & Hlee & Hsue).
     assert (Hnce : memob i = true -> st (getn sc i) <> Clean) by (intros _; rewrite Hstc; auto).
@@ -263,14 +265,14 @@ Qed.
 
 (* ---------------------------------------------------------------- read of a memo *)
 Lemma read_memo U R i cm e : decl_of p i = DMemo cm e -> USpec i U -> RSpec i R ->
-  forall m c s stk t s' v, i < t -> Inv stk t s -> ctx_ok stk c -> TopOK c s ->
+  forall m c s stk t s' v, i < t -> CtxDep p c i -> Inv stk t s -> ctx_ok stk c -> TopOK c s ->
   node_read p U R m c i s = (s', v) ->
   Inv stk t s' /\ TopOK c s' /\ PullRel (S i) stk (fst c) s s' /\
   (memob i = true -> st (getn s' i) = Clean /\ cache (getn s' i) = Some v) /\
   (sigb i = true -> v = sval (getn s' i)) /\
   Growth c s s' (fun D => forall rest, rlvl p (S i) m (snd c) i (D ++ rest) = Some (v, rest)).
 Proof.
-  intros Hd HU HR m c s stk t s' v Hit I C T Hr. unfold node_read in Hr. rewrite Hd in Hr.
+  intros Hd HU HR m c s stk t s' v Hit Hcd I C T Hr. unfold node_read in Hr. rewrite Hd in Hr.
   assert (Hm : memob i = true) by (unfold GraphInvariant.memob; rewrite Hd; auto).
   assert (Hwr : forall w, fst c = Some w -> w < nlen s /\ i < w).
   { intros w Hw. pose proof (who_on_stack stk c w C Hw) as Hin.
@@ -285,7 +287,7 @@ Proof.
   - (* tracked *)
     apply andb_prop in Et as [-> Hs].
     destruct (obs_of_tracked c stk C Hs) as (o & Hw & Ho).
-    destruct (Inv_track p stk t c o i s I C Ho T Hit) as (I1 & Hp & P1 & Hsro & Hrl & _).
+    destruct (Inv_track p stk t c o i s I C Ho T Hit (Hcd o Hw)) as (I1 & Hp & P1 & Hsro & Hrl & _).
     set (s1 := track c i s) in *.
     destruct (memo_update p U R c i cm e s1) as [s2 ch] eqn:Emu.
     inversion Hr; subst s' v. clear Hr.
@@ -361,14 +363,14 @@ Proof.
       destruct (Nat.eqb_spec j n) as [->|Hjn].
       * apply (node_update_spec n _ _ IHU IHR c s stk t s' ch Hjt I C HU).
       * apply (IHU c j s stk t s' ch ltac:(lia) Hjt I C HU).
-    + intros m c j s stk t s' v Hj Hjt He I C T HR. cbn [snd] in HR.
+    + intros m c j s stk t s' v Hj Hjt He Hcd I C T HR. cbn [snd] in HR.
       destruct (Nat.eqb_spec j n) as [->|Hjn].
       * destruct (decl_of p n) eqn:Hd.
-        -- apply (read_sig p _ _ n take init Hd m c s stk t s' v Hjt I C T HR).
-        -- apply (read_memo _ _ n c0 e Hd IHU IHR m c s stk t s' v Hjt I C T HR).
-        -- apply (read_der p wfp _ _ n e Hd IHR m c s stk t s' v Hjt I C T HR).
+        -- apply (read_sig p _ _ n take init Hd m c s stk t s' v Hjt Hcd I C T HR).
+        -- apply (read_memo _ _ n c0 e Hd IHU IHR m c s stk t s' v Hjt Hcd I C T HR).
+        -- apply (read_der p wfp _ _ n e Hd IHR m c s stk t s' v Hjt Hcd I C T HR).
         -- unfold GraphInvariant.effb in He. rewrite Hd in He. discriminate.
-      * destruct (IHR m c j s stk t s' v ltac:(lia) Hjt He I C T HR) as (A1 & A2 & A3 & A4 & A5 & A6).
+      * destruct (IHR m c j s stk t s' v ltac:(lia) Hjt He Hcd I C T HR) as (A1 & A2 & A3 & A4 & A5 & A6).
         split; auto. split; auto. split; auto. split; auto. split; auto.
         intros w Hw. destruct (A6 w Hw) as (D & HD & HQ). exists D. split; auto.
         intros rest. cbn [rlvl]. destruct (Nat.eqb_spec j n); [congruence|]. apply HQ.
